@@ -12,6 +12,7 @@ CONSTANTS
   Consumers = {"c1"}
   ThirdParty = {"b"}
   WithDrain = FALSE
+  Acts = {"planadd", "plandel", "buy", "adv", "auto", "block", "epoch", "stale"}
   PriceVar = {0, 1}
 INIT Init
 NEXT Next
